@@ -117,4 +117,22 @@ let () =
            (theorems listener_serial, delivery_is_emit_order); the oracle demands it of the code *)
         let want = ["ser=1"; "ord=1"; "n=" ^ n] in
         Mlutil.print_model want (if outs = want then "ok" else "fail:listener-not-serial-or-out-of-order")
+    | [_] when kind = "xbroker" ->
+        (* Events.v Part 3: the two-broker model run on the schedule of finding K-C16-cross-broker-order
+           predicts the consumer's log; the oracle demands stored(n) before deleted(n) of what the
+           implementation's consumer saw *)
+        let tok (b, n) = (if b then "S" else "D") ^ string_of_int (int_of_nat n) in
+        let model = "log=" ^ String.concat "," (List.map tok xbroker_log) in
+        let impl_log =
+          match outs with
+          | [o] when String.length o > 4 && String.sub o 0 4 = "log=" ->
+              List.filter_map (fun t ->
+                if String.length t < 2 then None else
+                match int_of_string_opt (String.sub t 1 (String.length t - 1)) with
+                | Some n -> Some (t.[0] = 'S', nat_of_int n) | None -> None)
+                (split ',' (String.sub o 4 (String.length o - 4)))
+          | _ -> [] in
+        let verdict = if impl_log = [] then "fail:no-consumer-log"
+                      else if xsbd_ok impl_log then "ok" else "fail:cross-broker-deleted-before-stored" in
+        Mlutil.print_model [model] verdict
     | _ -> Mlutil.print_model ["UNKNOWN-KIND"] "ok")
